@@ -313,10 +313,9 @@ impl FileSpec {
 
         let new_path = self.as_pathbuf(Some(infix));
         let new_path_with_gz = {
-            let mut new_path_with_gz = new_path.clone();
-            new_path_with_gz
-                .set_extension([self.o_suffix.as_deref().unwrap_or(""), ".gz"].concat());
-            new_path_with_gz
+            let mut new_path_with_gz = new_path.clone().into_os_string();
+            new_path_with_gz.push(".gz");
+            PathBuf::from(new_path_with_gz)
         };
 
         // if collision would occur (new_path or compressed new_path exists already),
